@@ -407,9 +407,9 @@ class _SG:
               '%s/%s/%s%d' % (self.scope, d(st.sampled_from(_SCOPES)), o, k),
               '%s.%s%d' % (self.scope, o, k),
               '%s/%s_%d;' % (self.scope, o, k)][style]
-    if self.cfg.get('collide_names') and self.tensors and d(st.integers(0, 39)) == 0:
+    if self.cfg.get('collide_names') and self.tensors and d(st.integers(0, 11 if self.si else 39)) == 0:
       pool = [t['name'] for t in self.tensors]
-      if self.si and d(st.booleans()):
+      if self.si and d(st.integers(0, 3)):
         # ... or like a tensor of an earlier subgraph (what gets inserted there
         # must not rename anything here)
         pool = [t['name'] for (_, ts) in self.cfg['_all_tensors']() for t in ts] or pool
